@@ -36,7 +36,7 @@ REPORTED_FLAVOURS = {('parse', 'docstring'), ('to_stan', 'format_docstring_fallb
 
 
 def plan(tier: str, seed: int) -> Dict[str, Any]:
-    n = int(os.environ.get('VERIF_TASKS') or 0) or (150 if tier == 'quick' else 4000)
+    n = int(os.environ.get('VERIF_TASKS') or 0) or (170 if tier == 'quick' else 4000)
     tasks = [{'i': i, 'seed': derive(seed, PROPERTY, i), 'faults': 7 if tier == 'quick' else 14,
               'planted': i % 5 == 4} for i in range(n)]
     return {'tasks': tasks, 'budget_s': 85 if tier == 'quick' else 1800, 'task_timeout': 400, 'selfcheck': 2}
@@ -209,10 +209,13 @@ def judge(plan_: Dict[str, Any], twin: Dict[str, Any], res: Dict[str, Any]) -> L
                 missing = [w for w in words if w not in ti['page_words']][:8]
                 viols.append((f'text-not-shown-in-full,{tag}', f'page {ti["page"]} of {target} does not show the complete docstring; e.g. missing {missing}'))
     # (4) containment against the twin
+    # Only pages that show the *target* may differ.  When the docstring is inherited (source != target) the
+    # source object's own rendering did not fail and its pages must not change.
     allowed: Set[str] = set(SUMMARY_FILES)
-    for name in (target, source):
-        if name in info:
-            allowed |= set(info[name]['pages'])
+    if target in info:
+        allowed |= set(info[target]['pages'])
+    elif source in info:
+        allowed |= set(info[source]['pages'])
     for path, what in procrun.diff_trees(twin['tree'], res['tree']):
         if path in allowed:
             continue
@@ -268,7 +271,9 @@ def draw_plans(rng: Rng, records: List[Dict[str, Any]], k: int) -> List[Dict[str
             break
         weights = [(key, 3.0 if (key[0], key[1]) in REPORTED_FLAVOURS else 1.0) for key in keys]
         key = r.weighted(weights)
-        rec = r.choice(by[key])
+        # extents whose docstring is inherited from another object are rare and share state with it: prefer them
+        inherited = [x for x in by[key] if x.get('source') and x.get('target') and x['source'] != x['target']]
+        rec = r.choice(inherited) if inherited and r.chance(0.5) else r.choice(by[key])
         ev = r.weighted([(1, 1), (r.randint(1, rec['events']), 4), (rec['events'], 1)])
         plans.append({'op': key[0], 'flavour': key[1], 'stmt': key[2], 'call': rec['call'], 'event': ev,
                       'exc': r.choice(sorted(inject.EXC_CLASSES))})
@@ -312,6 +317,8 @@ def run_case(case: Dict[str, Any], plans: Optional[List[Dict[str, Any]]], nplans
         k = f'{p["op"]}:{p["flavour"]}'
         stats['fired'][k] = stats['fired'].get(k, 0) + 1
         stats['exc_classes'][p['exc']] = stats['exc_classes'].get(p['exc'], 0) + 1
+        if res['fired'].get('source') and res['fired'].get('target') and res['fired']['source'] != res['fired']['target']:
+            stats['inherited'] = stats.get('inherited', 0) + 1
         if not res['fired'].get('surfaced'):
             stats['absorbed'] = stats.get('absorbed', 0) + 1
         if res['fired']['in_pydoctor']:
@@ -383,6 +390,7 @@ def coverage(stats: List[Dict[str, Any]], samples: List[Any]) -> Dict[str, Any]:
         'exception_classes': excs,
         'probes': {'injection_landed_in_a_pydoctor_frame': sum(s['in_pydoctor'] for s in stats),
                    'injection_landed_in_a_docutils_frame': sum(s['in_docutils'] for s in stats),
+                   'fault_while_rendering_a_docstring_inherited_from_another_object': sum(s.get('inherited', 0) for s in stats),
                    'injected_exception_absorbed_before_reaching_the_guard': sum(s.get('absorbed', 0) for s in stats),
                    'guarded_extents_seen_in_twins': sum(s['extents'] for s in stats),
                    'function_entries_inside_guarded_extents': sum(s['events'] for s in stats),
